@@ -27,6 +27,18 @@ impl BeneficiaryReadVersion {
     pub(crate) fn latest_dependency(&self) -> Option<TxId> {
         self.origins.first().map(|version| version.txid)
     }
+
+    /// Verification accessor: the recorded origin chain as `(txid, incarnation)`, newest first.
+    #[cfg(grevm_verif)]
+    pub(crate) fn verif_origins(&self) -> Vec<(TxId, usize)> {
+        self.origins.iter().map(|version| (version.txid, version.incarnation)).collect()
+    }
+
+    /// Verification constructor: an expected version chain chosen by the differential driver.
+    #[cfg(grevm_verif)]
+    pub(crate) fn verif_from_origins(origins: &[(TxId, usize)]) -> Self {
+        Self { origins: origins.iter().map(|&(txid, inc)| TxVersion::new(txid, inc)).collect() }
+    }
 }
 
 /// An exact beneficiary account read and the versions from which it was reconstructed.
